@@ -37,6 +37,7 @@ variables living on the table of the first.
 The *model* of a variable is {(Z, A, charge): Fraction}; it is updated by the
 obvious algebra and never looks at the library objects.
 """
+from . import subtable
 from fractions import Fraction
 
 from hypothesis import strategies as st
@@ -66,7 +67,7 @@ def env():
         # a private table with its own atoms; a few masses are changed so that an atom taken from the
         # wrong table also shows in masses
         from periodictable import core, mass, density as density_module
-        T = core.PeriodicTable("fops-private")
+        T = subtable.new("fops-private")
         mass.init(T)
         density_module.init(T)
         for sym, m in CUSTOM_MASS.items():
